@@ -29,6 +29,12 @@ LESSON = {
     "C18c": "missed -> the earlier configuration shares max_cycles / population_size with the observed one",
     "C10d": "missed: the pool model's wait() ignored its timeout (stub infidelity, surfaced as an AttributeError inside the stub) -> wait(timeout=0) is a non-blocking snapshot; exceptions raised by the simulator's own code are HARNESS-ERRORs, never library failures",
     "C20d": "missed (only the table's shape was checked) -> row k of every column must hold trial k",
+    "C05e": "missed -> 'computed' bounds without a short decimal representation (1/3, pi/3, 0.1+0.2, ...)",
+    "C08e": "missed -> history runs on the same search space with another weight vector / objective",
+    "C09e": "missed -> C09's observational part enumerates the boundary-parameter candidates, structural ones (reordered lists) first",
+    "C12e": "missed -> the constructor's debug flag is switched on in 8-12 % of the scenarios (diagnostics must not change behaviour)",
+    "C15e": "missed -> the recorded history is compared with the snapshots a second time, after the trend utilities have read it",
+    "C18e": "missed -> the same dict object is re-submitted to set_config_parameters after being changed in place",
 }
 
 
